@@ -165,12 +165,13 @@ def run(ctx):
                 f.write(json.dumps(t) + "\n"); k += 1
             if k == 3:
                 break
-    sres = ctx.harness_json("registry", ["c15seq", st, "remote,local", "1"], timeout=600)
-    fc = sres.get("fail_count") or {}
-    # every corrupted behaviour must fail in both modes (on a defective tree possibly for another reason, earlier)
-    if k != 3 or sum(fc.values()) != 6:
-        raise Infra("replay self-test: corrupted expectations not all detected: %s" % fc)
-    ctx.extra["replay_selftest"] = fc
+    if not ctx.violations:
+        sres = ctx.harness_json("registry", ["c15seq", st, "remote,local", "1"], timeout=600)
+        fc = sres.get("fail_count") or {}
+        # every corrupted behaviour must fail in both modes
+        if k != 3 or sum(fc.values()) != 6:
+            raise Infra("replay self-test: corrupted expectations not all detected: %s" % fc)
+        ctx.extra["replay_selftest"] = fc
 
     # 3. concurrent histories -> linearizability by TLC
     nh = 3000 if thorough else 300
@@ -190,7 +191,7 @@ def run(ctx):
         ctx.sample({"history": [json.loads(x) for x in hs[0]][:12]})
 
     # self-test of the trace specification: corrupted histories must be rejected
-    if first_ok is not None:
+    if first_ok is not None and not ctx.violations:
         h = [json.loads(x) for x in first_ok]
         muts = []
         # (a) a successful register returns another id
